@@ -779,9 +779,7 @@ func (w *Walk) FromEdgeCtx(ec EdgeCtx) *Reached {
 
 // FromEdge walks from the target of edge b -> b.Succs[succ].
 func (w *Walk) FromEdge(b *ssa.BasicBlock, succ int) *Reached {
-	r := w.run([]*ssa.BasicBlock{b.Succs[succ]}, []int{0})
-	r.Edge[[2]int{b.Index, b.Succs[succ].Index}] = true
-	return r
+	return w.FromEdgeCtx(EdgeCtx{B: b, Succ: succ})
 }
 
 func (r *Reached) Returns() []*ssa.Return {
